@@ -1,9 +1,10 @@
 /-
 Model of `riddle::lexer` (/repo/riddle/riddle_lexer.{h,cpp}).
 
-Input: the bytes of the text as the C++ sees them, i.e. SIGNED chars (`Int` in -128..127);
-`-1` is both the end-of-input marker returned by `next_char()` and the byte 0xFF, exactly as
-in the code.  Line/column bookkeeping is omitted (it only decorates error messages).
+Input: the bytes of the text as `unsigned char` values (`Int` in 0..255); `next_char()` returns
+`-1` at the end of the input only (the functions still test for `-1` inside the stream, as the
+C++ does; with byte-valued streams those tests never fire).  Line/column bookkeeping is
+omitted (it only decorates error messages).
 Keywords: the C++ walks a hand-written trie letter by letter and falls back to `finish_id`;
 that is "read the maximal run of identifier characters, then look the word up", which is what
 the model does (the token-level correspondence ties the two, keyword by keyword and on every
